@@ -7,6 +7,7 @@ import Tahoe.Immutable.IntegrityBytes
         → `healthy=<0|1> recoverable=<0|1> good=<n> corrupt=<n> incompatible=<n>`     (`Checker._format_results`)
   `verify <asis|fixed> <hashtree asis|fixed> <uebhash-hex> <k> <n> <size> <shnum> <share-hex>`
         → `good` | `corrupt` | `incompatible` | `raised`                  (`Checker._download_and_verify`)
+  `noverify <k> <n> <srv:claimed shnums|srv:x;…|->` → as `fmt`     (`_check_server_shares` for every server + `_format_results`)
   `fmtlists <results as for fmt>` → `corrupt=<srv.sh,…|-> incompatible=<srv.sh,…|->`   (locator lists of `_format_results`)
   `repairdecision <k> <n> <results as for fmt>` → `attempt=<0|1>`       (`CiphertextFileNode._maybe_repair`)
   `postrepair <k> <n> <pre-repair sharemap> <upload sharemap>`  (sharemap = `shnum:srv.srv;…` | `-`)
@@ -63,6 +64,18 @@ def handle : List String → String
       match verifyShare realEnv cfg vc pick0 cap shnum (vviewOf cap sh) with
       | .good => "good" | .corrupt => "corrupt" | .incompatible => "incompatible" | .raised => "raised"
     | _, _, _, _, _, _, _, _ => "bad-op"
+  | ["noverify", k, n, ans] =>
+    -- answers: `srv:sh.sh` (claimed buckets, `-` = none claimed) or `srv:x` (the server failed), joined by `;`
+    let parsed : Option (List (Nat × Option (List Nat))) :=
+      if ans == "-" then some [] else (ans.splitOn ";").mapM (fun e => match e.splitOn ":" with
+        | [srv, b] => if b == "x" then srv.toNat?.map (fun s => (s, none))
+                      else do pure ((← srv.toNat?), some (← dotList b))
+        | _ => none)
+    match k.toNat?, n.toNat?, parsed with
+    | some k, some n, some a =>
+      let c := checkNoVerify k n a
+      s!"healthy={b01 c.healthy} recoverable={b01 c.recoverable} good={c.countGood} corrupt={c.countCorrupt} incompatible={c.countIncompatible}"
+    | _, _, _ => "bad-op"
   | ["fmtlists", rs] =>
     match (if rs == "-" then some [] else (rs.splitOn ";").mapM parseResult) with
     | some rs =>
